@@ -109,4 +109,21 @@ def solve (cfg : Cfg) (script : List Step) : Outcome × List St :=
       else (.ok { eigenvalue := v, bestIndividual := b, circuitEvaluations := s.ledger, generations := s.nGen,
                   history := s.hist, measured := b }, started)
 
+/-- outcome of a solve in which an operator application may fail -/
+inductive OutcomeF where
+  | normal (o : Outcome)
+  | operatorRaised                 -- the exception of the failing operator leaves `_solve_by_evolution` unchanged
+  deriving Repr
+
+/-- `_solve_by_evolution` when the application of `script[k]` (`faultAt = some k`) raises after having emitted its events
+(a transient backend fault inside an operator): the loop has no handler, so if that application is reached the exception
+propagates and nothing further is started; if the loop stops before reaching it, the fault plays no role. -/
+def solveF (cfg : Cfg) (script : List Step) (faultAt : Option Nat) : OutcomeF × List St :=
+  match faultAt with
+  | none => (.normal (solve cfg script).1, (solve cfg script).2)
+  | some k =>
+    let started := (solve cfg (script.take (k + 1))).2
+    if k < script.length ∧ started.length = k + 1 then (.operatorRaised, started)
+    else (.normal (solve cfg script).1, (solve cfg script).2)
+
 end QVerif.Solver
